@@ -147,6 +147,15 @@ def run(tier):
         sc["meta"]["pred"] = lit_scaled(dict(MENU["count>=2"][1], lit=need))
         sc.update(gap_ms=rng.choice([180, 250]) if ng == 2 else rng.choice([300, 400]), ttl_ms=1000, span=ng)
         scen.append(sc)
+    # block strategy, a one-slot output queue and a slow consumer: a fire that finds the queue full waits for room (well inside the block
+    # timeout) and is delivered - in a first burst and again in a second one that follows after MORE than the block timeout
+    for _ in range(2 if quick else 12):
+        hist = [{"g": "a", "v": rng.choice([1, 2, 3])} for _ in range(6)]
+        sc = scenario("count>=2", hist + hist, 0, rng, "mix", "upper")
+        rows = sc.pop("rows")
+        ops = [{"op": "emit", "row": r} for r in rows[:6]] + [{"op": "sleep", "ms": 3400}] + [{"op": "emit", "row": r} for r in rows[6:]]
+        sc.update(ops=ops, rows=[], burst=True, perf={"strategy": "block", "winout": 1, "blockms": 3000, "slowsink": rng.choice([150000, 200000])}, norename=True)
+        scen.append(sc)
     # bursts: the producer outruns the global-window goroutine (held at its first row) by more rows than the window's input queue
     # holds (200 here): every row still counts towards its group's aggregates and trigger, in order
     for _ in range(6 if quick else 150):
